@@ -1230,10 +1230,23 @@ func (r *RIBHolder) GetNextHopGroup(id uint64) (*aft.Afts_NextHopGroup, bool) {
 	return n, true
 }
 
+// pathsFromProto wraps protomap.PathsFromProto, returning an error rather than
+// panicking when the input cannot be handled (e.g., an enumerated field
+// that carries a value that is not defined in the schema), since the input is
+// supplied by a client and must not be able to take down the server.
+func pathsFromProto(a *aftpb.Afts) (paths map[*gpb.Path]any, err error) {
+	defer func() {
+		if r := recover(); r != nil {
+			paths, err = nil, fmt.Errorf("cannot map AFT protobuf to paths, %v", r)
+		}
+	}()
+	return protomap.PathsFromProto(a)
+}
+
 // candidateRIB takes the input set of Afts and returns them as a aft.RIB pointer
 // that can be merged into an existing RIB.
 func candidateRIB(a *aftpb.Afts) (*aft.RIB, error) {
-	paths, err := protomap.PathsFromProto(a)
+	paths, err := pathsFromProto(a)
 	if err != nil {
 		return nil, err
 	}
